@@ -358,10 +358,12 @@ class _CopyInternalsTraversal(HasTraversalDispatch):
                 # TODO: use abc classes
                 assert False
 
-        return [
+        # (a tuple, like the attribute of a statement that was not cloned:
+        # ValuesBase.values() extends it with "+=")
+        return tuple(
             [copy(sub_element) for sub_element in sequence]
             for sequence in element
-        ]
+        )
 
     def visit_propagate_attrs(
         self, attrname, parent, element, clone=_clone, **kw
